@@ -11,6 +11,7 @@ RULE = ("content lines from (a) an alignment sweep: ASCII prefix of 0..160 octet
 ASSUMPTIONS = ["R3 (vmon/refs/fold.py) is the RFC 5545 3.1 unfolding rule",
                "lines containing LF are outside the property's domain (the library refuses them)"]
 SOFT_S = {"quick": 12, "thorough": 150}
+HARD_S = {"quick": 600, "thorough": 7200}
 
 W = {1: "b", 2: "é", 3: "€", 4: "\U0001F600"}
 TAILS = ["", "z" * 90, "é" * 50, "€" * 40, "\U0001F600" * 30, "aé€\U0001F600 \t" * 20]
@@ -79,6 +80,8 @@ def run(ctx):
                        rng.randrange(0, 80)), "components")
     for k, v in contracts.EVALS.items():
         ctx.count("contract_evals:" + k, v)
+    if not ctx.quick and ctx.shard == 0:
+        ctx.check(("suite-under-contracts",), "repository-suite-under-contracts", enum=True)
 
 
 def check_case(ctx, case):
@@ -129,10 +132,36 @@ def check_case(ctx, case):
         probs = R3.problems_stream(data, logical)
         if probs:
             ctx.fail("fold-component", observed=probs, expected="each line folded per RFC, CRLF terminated")
+    elif kind == "suite-under-contracts":
+        return suite_under_contracts(ctx)
     else:
         raise ValueError(kind)
     for name, detail in contracts.drain():
         ctx.fail("contract:" + name, observed=detail, expected="postcondition of R3")
+
+
+def suite_under_contracts(ctx):
+    """the repository's own tests as an additional workload: every fold/escape the suite performs is checked by the contracts"""
+    import json
+    import os
+    import subprocess
+    from .. import paths
+    ctx.nontrivial(True)
+    report = os.path.join(paths.WORK, f"c06-suite-{os.getpid()}.json")
+    env = dict(os.environ, VMON_CONTRACT_REPORT=report, PYTHONHASHSEED="0")
+    env["PYTHONPATH"] = os.pathsep.join([paths.REPO_SRC, paths.HERE, paths.DEPS])
+    r = subprocess.run([paths.PYTHON, "-m", "pytest", "-q", "-p", "no:cacheprovider", "-p", "vmon.pytest_plugin", "--timeout=900",
+                        os.path.join(paths.REPO_SRC, "icalendar", "tests")], cwd=paths.REPO, env=env, capture_output=True, text=True, timeout=3000)
+    if not os.path.exists(report):
+        ctx.count("suite-under-contracts:no-report")
+        return
+    with open(report) as f:
+        rep = json.load(f)
+    os.remove(report)
+    for k, v in rep["evals"].items():
+        ctx.count("suite-contract-evals:" + k, v)
+    for name, detail in rep["violations"]:
+        ctx.fail("contract-in-suite:" + name, observed=detail, expected="postcondition of R3 / R1")
 
 
 def inconclusive(m, tier):
